@@ -9,7 +9,9 @@ EXPLANATION = (
     'extraction); (offender) the unbound-variable, non-procedure and tail-call error rows of the evaluator tables '
     'carry a location inside the failing form or none; (single-origin) taint: data built by the macro expander '
     "never take the template's location; census of texts that feed the reader (known finding: library positions); "
-    '(position) token-location table from whole-lexer runs and Lexer::advance bookkeeping.')
+    '(position) token-location table from whole-lexer runs and Lexer::advance bookkeeping. The non-procedure '
+    "error carries the operator's own location (or none); token locations are also tabulated after strings, "
+    '|identifiers| and comments that span lines.')
 NOT_DECIDED = "that a reported line/column lies inside the textual extent of the failing form (numbers)."
 
 ITP = "interpreter::interpreter::Interpreter::"
